@@ -143,6 +143,9 @@ func runC01(r *hk.Run) {
 	// (d) connection-level events: the retry must carry the body
 	runEventCells(r, rng.Fork())
 
+	// (f) HTTP/2 uploads against small flow-control windows
+	runWindowCells(r, rng.Fork())
+
 	// (e) authority grammar, SetScheme, host-part parameters, very long URLs (no network)
 	runOfflineCells(r, rng.Fork())
 }
